@@ -182,13 +182,13 @@ struct Extractor {
     }
     // transparent wrappers
     if (const auto *P = dyn_cast<ParenExpr>(S))
-      return ser(P->getSubExpr(), Root == S ? P->getSubExpr() : Root);
+      return ser(P->getSubExpr(), Root);
     if (const auto *IC = dyn_cast<ImplicitCastExpr>(S))
-      return ser(IC->getSubExpr(), Root == S ? IC->getSubExpr() : Root);
+      return ser(IC->getSubExpr(), Root);
     if (const auto *CE = dyn_cast<ConstantExpr>(S))
-      return ser(CE->getSubExpr(), Root == S ? CE->getSubExpr() : Root);
+      return ser(CE->getSubExpr(), Root);
     if (const auto *FE = dyn_cast<FullExpr>(S))
-      return ser(FE->getSubExpr(), Root == S ? FE->getSubExpr() : Root);
+      return ser(FE->getSubExpr(), Root);
 
     json::Object O;
     locAttrs(O, S->getBeginLoc());
@@ -258,7 +258,7 @@ struct Extractor {
       const FunctionDecl *FD = CE->getDirectCallee();
       if (FD && FD->getIdentifier() &&
           (FD->getName() == "__builtin_expect") && CE->getNumArgs() >= 1)
-        return ser(CE->getArg(0), Root == S ? CE->getArg(0) : Root);
+        return ser(CE->getArg(0), Root);
       O["k"] = "call";
       if (FD)
         O["fn"] = FD->getNameAsString();
